@@ -501,6 +501,8 @@ func checkC08(P *Program, r *Result, tier string) {
 	r.Extra["contracts"] = run.contractSummary()
 	r.assume("bufiox.Reader.Next/Peek and SkipDecoderIface.SkipN return exactly n bytes when err == nil (interface contract; the implementations are C02/C04's subject)")
 	r.assume("int is 64 bits; lengths ≤ 2^48; addresses < 2^56")
+	// the decoders that feed the template skipper (shared with C02): exact windows, fragments placed one after the other
+	c02Decoders(P, r)
 }
 
 // ---- NEG32 ----
